@@ -248,6 +248,44 @@ static void op_semi(char **w, int nw)
     ckd_free(scores); ckd_free(act); ckd_free_3d(s.mixw); ckd_free_2d(f); ckd_free(s.topn_beam);
 }
 
+/* top topn nden | (cw score) x topn | density x nden
+ * the REAL eval_topn and eval_cb on a one-codebook, one-stream, one-dimensional Gaussian set built so that
+ * the density of codeword cw for the observation 0 is exactly the given integer (mean 0, det = value);
+ * a value below -2147483648 stands for a density under MAX_NEG_INT32. */
+static void op_top(char **w, int nw)
+{
+    ptm_mgau_t s;
+    gauden_t g;
+    ptm_fast_eval_t fe;
+    int topn = (int)L(w[1]), nden = (int)L(w[2]), k = 3, i;
+    int32 featlen = 1;
+    mfcc_t *meanv, *varv, *detv, **m2, **v2, ***m3, ***v3, **d2;
+    mfcc_t z[4] = { 0, 0, 0, 0 };
+    if (nw != 3 + 2 * topn + nden || topn < 1 || nden < topn) { printf("bad-op\n"); return; }
+    memset(&s, 0, sizeof(s)); memset(&g, 0, sizeof(g)); memset(&fe, 0, sizeof(fe));
+    meanv = (mfcc_t *)ckd_calloc(nden, sizeof(mfcc_t));
+    varv = (mfcc_t *)ckd_calloc(nden, sizeof(mfcc_t));
+    detv = (mfcc_t *)ckd_calloc(nden, sizeof(mfcc_t));
+    m2 = (mfcc_t **)ckd_calloc(1, sizeof(*m2)); v2 = (mfcc_t **)ckd_calloc(1, sizeof(*v2)); d2 = (mfcc_t **)ckd_calloc(1, sizeof(*d2));
+    m3 = (mfcc_t ***)ckd_calloc(1, sizeof(*m3)); v3 = (mfcc_t ***)ckd_calloc(1, sizeof(*v3));
+    m2[0] = meanv; v2[0] = varv; d2[0] = detv; m3[0] = m2; v3[0] = v2;
+    g.mean = &m3; g.var = &v3; g.det = &d2;   /* mean[0][0][0] = meanv, det[0][0] = detv */
+    g.n_mgau = 1; g.n_feat = 1; g.n_density = nden; g.featlen = &featlen;
+    s.g = &g; s.max_topn = topn;
+    fe.topn = (ptm_topn_t ***)ckd_calloc_3d(1, 1, topn, sizeof(ptm_topn_t));
+    for (i = 0; i < topn; i++) { fe.topn[0][0][i].cw = (int32)L(w[k++]); fe.topn[0][0][i].score = (int32)L(w[k++]); }
+    for (i = 0; i < nden; i++) { varv[i] = 1.0f; detv[i] = (mfcc_t)strtod(w[k++], NULL); }
+    s.f = &fe; s.hist = &fe; s.n_fast_hist = 1;
+    fflush(stdout);
+    eval_topn(&s, 0, 0, z);
+    eval_cb(&s, 0, 0, z);
+    printf("p");
+    for (i = 0; i < topn; i++) printf(" %d %d", fe.topn[0][0][i].cw, fe.topn[0][0][i].score);
+    printf("\n");
+    ckd_free_3d(fe.topn); ckd_free(meanv); ckd_free(varv); ckd_free(detv);
+    ckd_free(m2); ckd_free(v2); ckd_free(d2); ckd_free(m3); ckd_free(v3);
+}
+
 /* arith ops of the search (fsg_search.c): these are single expressions; the harness evaluates the
  * same C expressions on int32 so that the model's Int arithmetic is compared with real int32.   */
 static int main_int(void)
@@ -261,6 +299,7 @@ static int main_int(void)
         else if (!strcmp(W[0], "tab")) op_tab();
         else if (!strcmp(W[0], "ptm")) op_ptm(W, nw);
         else if (!strcmp(W[0], "semi")) op_semi(W, nw);
+        else if (!strcmp(W[0], "top")) op_top(W, nw);
         else printf("bad-op\n");
         fflush(stdout);
     }
@@ -536,6 +575,14 @@ static int main_sig(const char *json, const char *speech, const char *lang)
             s16 = (int16 *)malloc(sizeof(int16) * (n + 1));
             for (i = 0; i < n; i++) s16[i] = clip16(sig[i]);
         }
+        if (d->acmod->fe->swap) {
+            /* input_endian differs from the host: hand over the signal in THAT byte order, as a file of that
+             * endianness would, so that the front end sees the intended adversarial samples */
+            for (i = 0; i < n; i++) {
+                if (s16) { uint16 v = (uint16)s16[i]; s16[i] = (int16)((v >> 8) | (v << 8)); }
+                if (f32) { unsigned char *b = (unsigned char *)&f32[i], t; t = b[0]; b[0] = b[3]; b[3] = t; t = b[1]; b[1] = b[2]; b[2] = t; }
+            }
+        }
         memset(&o, 0, sizeof(o));
         o.cep_first_bad = o.feat_first_bad = o.sen_first_bad = -1;
         o.hmm_min = 0; o.hmm_max = INT_MIN; o.sen_max = INT_MIN;
@@ -612,13 +659,22 @@ static int main_sig(const char *json, const char *speech, const char *lang)
         }
         /* 3. CMN state */
         cm = d->acmod->fcb->cmn_struct;
-        for (i = 0; (int)i < cm->veclen; i++) {
-            if (!finite_f(cm->cmn_mean[i]) || !finite_f(cm->sum[i])) cmn_struct_fin = 0;
-            if (d->acmod->fcb->varnorm && d->acmod->fcb->cmn == CMN_BATCH && !finite_f(cm->cmn_var[i])) cmn_struct_fin = 0;
-        }
-        {
+        c1 = c2 = NULL; cmn_fin = cmn_rt = 1;
+        if (cm == NULL) {
+            /* cmn: none — there is no state; the documented getters are still called (they must not crash) */
+            const char *g1;
+            printf("cmn-none\n"); fflush(stdout);
+            g1 = decoder_get_cmn(d, upd);
+            c1 = strdup(g1 ? g1 : "(none)");
+            decoder_set_cmn(d, "1,2,3");
+        } else {
             float before[64]; int nv = cm->veclen < 64 ? cm->veclen : 64;
-            const char *g1 = decoder_get_cmn(d, upd);
+            const char *g1;
+            for (i = 0; (int)i < cm->veclen; i++) {
+                if (!finite_f(cm->cmn_mean[i]) || !finite_f(cm->sum[i])) cmn_struct_fin = 0;
+                if (d->acmod->fcb->varnorm && d->acmod->fcb->cmn == CMN_BATCH && !finite_f(cm->cmn_var[i])) cmn_struct_fin = 0;
+            }
+            g1 = decoder_get_cmn(d, upd);
             for (i = 0; (int)i < cm->veclen; i++)
                 if (!finite_f(cm->cmn_mean[i]) || !finite_f(cm->sum[i])) cmn_struct_fin = 0;
             c1 = strdup(g1 ? g1 : "(null)");
